@@ -692,10 +692,10 @@ func c10Stress(c *core.Ctx) {
 	p := c10Prog{Init: L, Fifo: r.Bool(), Cap: c10CapFor(r.Intn(3), L), Kind: Kinds[r.Intn(5)]}
 	n := 100
 	next := func() int { n++; return n }
-	nw := r.Range(3, 8)
+	nw := r.Range(3, 7)
 	for w := 0; w < nw; w++ {
 		var ops []c10Op
-		for i, k := 0, r.Range(2, 4); i < k; i++ {
+		for i, k := 0, r.Range(2, 3+r.Intn(2)); i < k; i++ {
 			ops = append(ops, c10Symbol(r.Intn(c10Alphabet), L, next))
 		}
 		p.Workers = append(p.Workers, ops)
@@ -763,7 +763,7 @@ func c10Stress(c *core.Ctx) {
 	final := c10Apply(s, c10Op{K: "ReadAll"})
 	t := clock.Add(1)
 	hist = append(hist, porcupine.Operation{ClientId: nw, Input: c10Op{K: "ReadAll"}, Call: t, Output: final, Return: t + 1})
-	res, _ := porcupine.CheckOperationsVerbose(c10Model(init, p.Fifo, p.Cap), hist, 10*time.Second)
+	res, _ := porcupine.CheckOperationsVerbose(c10Model(init, p.Fifo, p.Cap), hist, 4*time.Second)
 	switch res {
 	case porcupine.Unknown:
 		c.Count("stress.linearizability-timeouts")
@@ -829,7 +829,7 @@ func init() {
 		Rule: "explorer: a cooperative scheduler over the lock-point hook runs exactly one worker at a time and switches only at operation starts and immediately before a lock acquisition, so an execution is a function of (program, schedule); " +
 			"ALL 2-worker x 1-op programs over a 13-symbol mutator alphabet x initial length 0..3 x LIFO/FIFO x capacity {none, Len, Len+1} with ALL their interleavings, plus sampled 2..3-worker x 1..3-op programs with up to 200 (quick) / 400 (thorough) interleavings each (depth-first, re-execution). " +
 			"At every switch a VerifDump snapshot decides 'writes only inside the critical section' (content, configuration slot, lock bookkeeping), capacity and the presence of the configuration record; deadlock = no enabled worker; each history (call/return stamps + final read) is checked by porcupine against the sequential list model. " +
-			"stress: 3..8 free-running goroutines x 2..4 ops with yields injected at lock.want, histories checked by porcupine; the whole run executes under the Go race detector and every report is classified by the registered address it touches (slice header / configuration record field / elsewhere) and by the reading function. " +
+			"stress: 3..7 free-running goroutines x 2..4 ops with yields injected at lock.want, histories checked by porcupine; the whole run executes under the Go race detector and every report is classified by the registered address it touches (slice header / configuration record field / elsewhere) and by the reading function. " +
 			"non-trivial = program for which at least two different interleavings were executed, or a completed stress history; distinct = program text.",
 		Assumptions: []string{
 			"interleavings are explored at lock-acquisition granularity; instruction-level interleavings inside a block are visible only to the race detector, and only when the stress run produces them",
